@@ -45,6 +45,23 @@ fn sched_point(name: &'static str) {
     }
 }
 
+// a scripted panic of the wrapped sink can be held in mid-unwind (a guard in the sink's frame is dropped before the
+// worker's own cleanup runs), so that producer steps the solver placed "between the panic and the worker's reaction" happen there
+static HOLD_UNWIND: AtomicBool = AtomicBool::new(false);
+
+struct UnwindGate;
+
+impl Drop for UnwindGate {
+    fn drop(&mut self) {
+        if std::thread::panicking() {
+            let t = Instant::now();
+            while HOLD_UNWIND.load(Ordering::SeqCst) && t.elapsed() < Duration::from_secs(10) {
+                std::thread::sleep(Duration::from_millis(1));
+            }
+        }
+    }
+}
+
 struct Shared {
     entered: Mutex<Vec<String>>,
     finished: AtomicUsize,
@@ -63,6 +80,7 @@ impl MetricSink for GatedSink {
         let outcome = { self.gate.lock().unwrap().recv_timeout(Duration::from_secs(20)).unwrap_or_else(|_| "ok".to_string()) };
         self.sh.outcomes.lock().unwrap().push(outcome.clone());
         self.sh.finished.fetch_add(1, Ordering::SeqCst);
+        let _gate = UnwindGate;
         match outcome.as_str() {
             "ok" => Ok(m.len()),
             o if o.starts_with("ok:") => Ok(o[3..].parse::<usize>().unwrap_or(m.len())),
@@ -548,8 +566,15 @@ pub fn replay(sc: &Value) -> Value {
                 let want = sh.finished.load(Ordering::SeqCst) + 1;
                 let _ = wait_until(|| sh.entered.lock().unwrap().len() >= want, 1500);
             }
+            "release_unwind" => {
+                HOLD_UNWIND.store(false, Ordering::SeqCst);
+                std::thread::sleep(Duration::from_millis(40));
+            }
             "release" => {
                 let o = st["outcome"].as_str().unwrap_or("ok").to_string();
+                if st["hold"].as_bool() == Some(true) {
+                    HOLD_UNWIND.store(true, Ordering::SeqCst);
+                }
                 scripted_outcomes.push(o.clone());
                 let before = sh.finished.load(Ordering::SeqCst);
                 let _ = tx.send(o);
@@ -561,6 +586,7 @@ pub fn replay(sc: &Value) -> Value {
         }
     }
     // the scripted part is over: from here on the worker runs freely
+    HOLD_UNWIND.store(false, Ordering::SeqCst);
     GATING.store(false, Ordering::SeqCst);
     if rendezvous {
         std::thread::sleep(Duration::from_millis(60));
